@@ -53,6 +53,10 @@ type conf struct {
 	// KeepSlices (workload switch, injected storage only): the storage retains the slices it is
 	// given and returns them uncopied (keepStore), like fiber's own memory storage driver.
 	KeepSlices bool
+	// PreHdr (workload switch, with StoreResponseHeaders): the middleware in front of the cache
+	// pre-sets response headers (constant defaults, like helmet does) which the origin handler
+	// overrides, deletes or leaves alone, per request.
+	PreHdr bool
 	// KeyNames (workload switch): the logical keys of the history; nil = k0..k4. Used for key
 	// sets whose members end in _GET / _HEAD / _POST / _body or extend one another by such a
 	// suffix, which must still be kept apart per method and per key.
@@ -60,8 +64,8 @@ type conf struct {
 }
 
 func (cf conf) String() string {
-	return fmt.Sprintf("exp=%d expgen=%v inv=%v next=%v max=%d hdr=%v keygen=%d methods=%v vstore=%v cc=%v polite=%v reusectx=%v keepslices=%v keys=%v",
-		cf.Exp, cf.ExpGen, cf.Inv, cf.Next, cf.MaxBytes, cf.StoreHdr, cf.KeyGen, cf.Methods, cf.VStore, cf.CacheCtl, cf.Polite, cf.ReuseCtx, cf.KeepSlices, cf.KeyNames)
+	return fmt.Sprintf("exp=%d expgen=%v inv=%v next=%v max=%d hdr=%v keygen=%d methods=%v vstore=%v cc=%v polite=%v reusectx=%v keepslices=%v keys=%v prehdr=%v",
+		cf.Exp, cf.ExpGen, cf.Inv, cf.Next, cf.MaxBytes, cf.StoreHdr, cf.KeyGen, cf.Methods, cf.VStore, cf.CacheCtl, cf.Polite, cf.ReuseCtx, cf.KeepSlices, cf.KeyNames, cf.PreHdr)
 }
 
 func (cf conf) backend() string {
@@ -104,9 +108,11 @@ type rq struct {
 	// SubSec: origin sets X-Exp-Ms instead ("0", "1", "500", "999"): the generator returns that many
 	// milliseconds, i.e. a lifetime below one second (zero whole seconds). "" = header absent.
 	SubSec string
-	Enc    bool // origin sets a Content-Encoding
-	Sleep  int  // origin sleeps that many virtual seconds (vt, sequential only)
-	Probe  bool // bound probe (origin answers 500, so a miss stores nothing)
+	Enc    bool   // origin sets a Content-Encoding
+	Pre    [3]int // per pre-set header (preNames): 0 leave alone, 1 override, 2 delete
+	Multi  bool   // origin adds two Link and two Set-Cookie header lines
+	Sleep  int    // origin sleeps that many virtual seconds (vt, sequential only)
+	Probe  bool   // bound probe (origin answers 500, so a miss stores nothing)
 
 	// observed
 	S, E     int64 // logical ticks at start / end
@@ -121,6 +127,12 @@ type rq struct {
 	Absent   bool // vstore only: no live entry under this request's storage key when it started
 	Hung     bool // the request never completed (deadlock guard fired), or the rig was already abandoned
 }
+
+// preNames / preDefaults: what the middleware in front of the cache puts on every response
+var (
+	preNames    = [3]string{"X-Frame-Options", "X-Pre-A", "Vary"}
+	preDefaults = [3]string{"DENY", "outer-default", "Accept-Encoding"}
+)
 
 func (q *rq) mkey() string { return q.Method + " " + q.Key }
 
@@ -165,6 +177,12 @@ func (q *rq) spec() string {
 	if q.SubSec != "" {
 		s += fmt.Sprintf(", exp=%sms", q.SubSec)
 	}
+	if q.Pre != [3]int{} {
+		s += fmt.Sprintf(", pre-set headers %v", q.Pre)
+	}
+	if q.Multi {
+		s += ", 2xLink 2xSet-Cookie"
+	}
 	if q.Sleep > 0 {
 		s += fmt.Sprintf(", sleeps %ds", q.Sleep)
 	}
@@ -200,6 +218,7 @@ type exec struct {
 	Ctype  string
 	Cenc   string
 	Hdr    map[string]string
+	Multi  map[string][]string // header lines the origin added more than once
 	At     time.Duration
 	Done   time.Duration
 	DoneTk int64
@@ -378,6 +397,11 @@ func newRig(e *ev.Env, c *ev.Case, cf conf) *rig {
 	// the scheduler a request can be parked here ("afterCache") while others go through the cache;
 	// in the real-time build hits linger here for a moment.
 	app.Use(func(c fiber.Ctx) error {
+		if cf.PreHdr && cf.StoreHdr {
+			for i, name := range preNames {
+				c.Set(name, preDefaults[i])
+			}
+		}
 		err := c.Next()
 		g.y("afterCache")
 		if g.realtime && g.inline && string(c.Response().Header.Peek("X-Cache")) == "hit" {
@@ -425,6 +449,23 @@ func (g *rig) origin(c fiber.Ctx) error {
 			x.ExpSec = q.ExpSec
 		}
 	}
+	if g.cf.PreHdr && g.cf.StoreHdr {
+		// what the origin response carries for the pre-set headers when the handler is done
+		for i, name := range preNames {
+			switch q.Pre[i] {
+			case 0:
+				x.Hdr[name] = preDefaults[i]
+			case 1:
+				x.Hdr[name] = fmt.Sprintf("%s-by-origin-%d", []string{"SAMEORIGIN", "inner", "Origin"}[i], id)
+			}
+		}
+	}
+	if q.Multi {
+		x.Multi = map[string][]string{
+			"Link":       {fmt.Sprintf("</a%d>; rel=preload", id), fmt.Sprintf("</b%d>; rel=preload", id)},
+			"Set-Cookie": {fmt.Sprintf("a=%d; path=/", id), fmt.Sprintf("b=%d; path=/", id)},
+		}
+	}
 	g.execs = append(g.execs, x)
 	q.Exec = x
 	g.mu.Unlock()
@@ -439,6 +480,21 @@ func (g *rig) origin(c fiber.Ctx) error {
 	for _, k := range []string{"X-U1", "X-U2", "X-Exp-Sec", "X-Exp-Ms"} {
 		if v, ok := x.Hdr[k]; ok {
 			c.Set(k, v)
+		}
+	}
+	if g.cf.PreHdr && g.cf.StoreHdr {
+		for i, name := range preNames {
+			switch q.Pre[i] {
+			case 1:
+				c.Set(name, x.Hdr[name])
+			case 2:
+				c.Response().Header.Del(name)
+			}
+		}
+	}
+	for name, vs := range x.Multi {
+		for _, v := range vs {
+			c.Response().Header.Add(name, v)
 		}
 	}
 	c.Response().SetBody(x.Body)
